@@ -6,6 +6,7 @@ the vectorised root finder replaced by the per-element contract proved in C14 an
 `nonzero` / `argsort` fork the path (one path per subset / permutation).
 """
 import itertools
+from fractions import Fraction
 import z3
 
 from pyvc.executor import Executor, State, Ctx, Raised, Unsupported
@@ -179,3 +180,29 @@ def job_handle_events(reg, src, prop, n):
 def job_no_miss(reg, src, prop, n):
     check_no_miss(reg, src, prop, n)
     return {}
+
+
+def check_probe_offset(reg, src, prop):
+    """_probe_offset(t_prev, t_next, eps, power): the signed distance from a located root at which an event function is sampled.  It has
+    the sign of the step, is at least the step scaled by eps**power, and is never below a few spacings of floating-point numbers at the
+    step (4 eps max(|t_prev|, |t_next|)) -- the lemma that keeps the samples distinct from the root on the float side (defect F34 was its
+    absence: at |t| >= 1e8 the samples collapsed onto the root and every crossing was dropped)."""
+    fi = src.func(F, "_probe_offset")
+    for power in (Fraction(1, 2), Fraction(3, 4)):
+        ex = Executor(src, reg, prop=prop)
+        ex.global_axioms = ex.global_axioms + intcall.transcendental_axioms(ex)
+        st = State()
+        t_prev, t_next = z3.Real("t_prev"), z3.Real("t_next")
+        st.assume(t_prev != t_next)
+        ctx = Ctx(fi, None, None, tag="_probe_offset[power=%s]" % power)
+        for k, (s, v) in enumerate(ex.call_function(fi, [t_prev, t_next, ex.eps, power], {}, st, ctx)):
+            if isinstance(v, Raised) or not z3.is_expr(v):
+                reg.undecided("%s/%s/value#%d" % (prop, ctx.tag, k), "unsupported", "_probe_offset", "result %r" % (v,))
+                continue
+            r = to_real(v)
+            dt = t_next - t_prev
+            spacing = 4 * ex.eps * z3.If(zabs(t_prev) >= zabs(t_next), zabs(t_prev), zabs(t_next))
+            ex.prove(s, ctx, z3.And(r != 0, (r > 0) == (dt > 0)), "post", "has-the-sign-of-the-step#%d" % k)
+            ex.prove(s, ctx, zabs(r) >= spacing, "post", "never-below-the-float-spacing-at-the-step#%d" % k)
+            ex.prove(s, ctx, zabs(r) >= zabs(dt) * ex.uf("pow", 2)(ex.eps, z3.RealVal(str(power))), "post", "never-below-the-scaled-step#%d" % k)
+    return fi
